@@ -248,20 +248,31 @@ def c13_cases(h, rng, n):
 
 
 def c13_oracle(h, case, impl):
+    """IIN octets of every response against a ledger.  Broadcast bit: a confirm-mandatory indication must persist
+    until a CONFIRM arrives for a response that REPORTED it (same UNS bit and sequence number, transmitted after the
+    broadcast); any other confirm - of an unsolicited response sent before the broadcast, or a solicited CONFIRM that
+    confirms nothing - must leave it set (finding F25, both variants)"""
     fails = []
-    stray = False     # a solicited CONFIRM that confirmed nothing arrived while a mandatory broadcast was pending
     cfg = case.meta.get("cfg", {})
     restart = True
     appiin = int(cfg.get("appiin", 0))
     bcast = None          # pending broadcast indication: None / mode
+    reported = None       # (uns, seq) of the last response that carried a pending confirm-mandatory indication
+    maybe = False         # a CONFIRM matching `reported` arrived outside a confirm wait: the bit may be either
+    wrong = None          # a confirm that confirms no report arrived while the indication was pending (diagnosis)
     evinfo = None
     for op, t, lines in split_steps(impl):
         if op[0] == "appiin":
             appiin = int(op[1])
+        if op[0] == "disconnect":
+            reported, maybe = None, False
         if op[0] == "rx" and op[2] == "none" and bcast == "mand":
             b0 = bytes.fromhex(op[3]) if op[3] != "-" else b""
             if len(b0) >= 2 and b0[1] == 0 and not (b0[0] & 0x10) and not any(" info " in l for l in lines):
-                stray = True
+                if reported == (False, b0[0] & 15):
+                    maybe = True
+                else:
+                    wrong = "stray"
         for l in lines:
             tk = l.split()
             if len(tk) < 3:
@@ -273,8 +284,13 @@ def c13_oracle(h, case, impl):
             elif tk[1] == "info" and tk[2] == "broadcast":
                 # recorded before the callback: the mode is the one of this step's rx
                 bcast = op[2] if op[0] == "rx" else bcast
+                reported, maybe, wrong = None, False, None
             elif tk[1] == "info" and tk[2] in ("sol_confirmed", "unsol_confirmed"):
-                bcast = None
+                who = (tk[2] == "unsol_confirmed", int(tk[3]))
+                if bcast == "mand" and reported != who:
+                    wrong = "unsol" if who[0] else "sol"
+                elif bcast == "mand":
+                    bcast, reported, maybe = None, None, False
             elif tk[1] == "tx":
                 b = bytes.fromhex(tk[3])
                 if len(b) < 4 or evinfo is None:
@@ -288,13 +304,21 @@ def c13_oracle(h, case, impl):
                 if bool(iin2 & 0x08) != evinfo[3]:
                     fails.append(("overflow-bit", "overflow bit is %d but the buffer says %d" % (bool(iin2 & 8), evinfo[3])))
                 if bool(iin1 & 0x01) != (bcast is not None):
-                    if stray and bcast == "mand" and not (iin1 & 1):
-                        fails.append(("broadcast-bit-cleared-by-stray-confirm", "a confirm-mandatory broadcast indication was dropped, before it was ever reported, by a solicited CONFIRM that confirmed nothing (received during an unsolicited confirm wait)"))
+                    if bcast == "mand" and maybe:
+                        bcast = None                      # confirmed by a matching CONFIRM outside a confirm wait
+                    elif bcast == "mand" and wrong == "stray":
+                        fails.append(("broadcast-bit-cleared-by-stray-confirm", "a confirm-mandatory broadcast indication was dropped by a solicited CONFIRM that confirmed no response reporting it (received during an unsolicited confirm wait)"))
+                        bcast = None
+                    elif bcast == "mand" and wrong == "unsol":
+                        fails.append(("broadcast-bit-cleared-by-unrelated-confirm", "a confirm-mandatory broadcast indication was dropped, before it was ever reported, by the CONFIRM of an unsolicited response transmitted before the broadcast arrived"))
                         bcast = None
                     else:
                         fails.append(("broadcast-bit", "broadcast indication is %d, expected %d" % (iin1 & 1, bcast is not None)))
-                stray = False if bcast is None else stray
-                if bcast is not None and bcast != "mand":
+                        bcast = None if not (iin1 & 1) else bcast
+                maybe = False
+                if bcast == "mand":
+                    reported = (bool(b[0] & 0x10), b[0] & 15)
+                elif bcast is not None:
                     bcast = None
                 want = ((appiin & 1) << 4) | ((appiin & 2) << 4) | ((appiin & 4) << 4)
                 if (iin1 & 0x70) != want or bool(iin2 & 0x20) != bool(appiin & 8):
